@@ -98,6 +98,21 @@ theorem docSetNodes_is_source (ks : List Id) (s : St) :
   simp only [Flags.goodWith, Flags.good, if_true]
   rfl
 
+/-- **`doc.AddNode(record)` of the model is the translated body of `Document.AddNode`** (helper
+    `addPointerToCache` inlined), run in source order on the state in which the record has been
+    allocated: append to the records, store the pointer if there is one, forget the family list if
+    the record is a family, `familyLinksVersion++`. -/
+theorem docAppend_is_source (x : NodeRec) (s : St) :
+    docAppend (Flags.goodWith b1 b2 b3) x s =
+      runDocAdd s.heap.length Generated.documentAddNode (alloc x s) := by
+  have hp : (abs (alloc x s)).ptr s.heap.length = x.ptr := ptr_append_new _ _ _
+  have ht : (abs (alloc x s)).tag s.heap.length = x.tag := tag_append_new _ _ _
+  have hp' : ∀ (r : List Id) , (Abs.mk (s.heap ++ [x]) r).ptr s.heap.length = x.ptr := fun _ => ptr_append_new _ _ _
+  have ht' : ∀ (r : List Id), (Abs.mk (s.heap ++ [x]) r).tag s.heap.length = x.tag := fun _ => tag_append_new _ _ _
+  cases hE : x.ptr.isEmpty <;> cases hF : (x.tag == tFAM) <;>
+    simp [docAppend, docAppend0, Flags.goodWith, Flags.good, runDocAdd, Generated.documentAddNode,
+      docAddStmt, docAddGuard, alloc, abs, hp', ht', hE, hF, bumpFamilyLinks]
+
 /-! ## the version stamp -/
 
 theorem cell_store_get {α : Type} (V : Nat) (v : α) : (Cell.store V v).get V = some v := by
